@@ -1,6 +1,8 @@
 import Rare.Proofs.C03Csv
 import Rare.Proofs.C03Comp
 import Rare.Proofs.C03Det
+import Rare.Proofs.C03Run
+import Rare.Proofs.C03ReduceExpr
 import Rare.Props.C07
 import Rare.Props.C13
 /-!
@@ -25,6 +27,7 @@ reproduced by `extra/C03.py`); the theorems below speak about aggregators whose 
 -/
 namespace Rare.C03
 open Rare.C07 Rare.C13 Rare.Pipeline Rare.C01
+open Rare.Expr (Stage Comp)
 
 /-! ## CSV: reading back what the writer wrote -/
 
@@ -338,5 +341,208 @@ example : CleanLine [97, 13, 98] ∧ ¬ CleanLine [97, 13] := by
   refine ⟨⟨by decide, by decide⟩, fun h => h.2 (by decide)⟩
 example : ([[[97], [98]], [[99]]] : List (List Bytes)).flatten.Perm ([[[99], [97]], [], [[98]]] : List (List Bytes)).flatten := by
   decide
+
+/-! ## `rare reduce` -/
+
+/-- "any accumulator with one reader and one worker".  For EVERY accumulating group `s0` (any group, accumulator
+and sort definitions – order-sensitive ones included, e.g. `last={2}` or `cat={.}{3}`), one source and one worker:
+whatever batch size, channel depths, flush-timer behaviour and schedule, the sample history is the input order
+(C02 `fifo_order`), so the run is refused (an expression panics) in both cases or accepted in both with THE SAME
+aggregator; and the complete result of `rare reduce` – final render, `--csv` text, exit status – is the same for
+every order in which Go ranges over the map. -/
+theorem reduce_fifo_deterministic (cls : Line → Cls) (key : Line → Bytes) (data : Bytes)
+    (cfg₁ cfg₂ : Config) (hW₁ : cfg₁.W = 1) (hW₂ : cfg₂.W = 1) (h₁ h₂ : List Bytes) (c₁ c₂ : Counters)
+    (t₁ : TerminalC cls key cfg₁ [data] h₁ c₁) (t₂ : TerminalC cls key cfg₂ [data] h₂ c₂)
+    (a : ReduceArgs) (maxKeylen : Nat) (s0 : AccGroup) (h0 : AccReach s0)
+    (less : Bytes → Bytes → Bool) (hlt : C07.StrictTotal (reduceSorter a less))
+    (ord₁ ord₂ : AccGroup → List Bytes) (hord₁ : ∀ s, AccReach s → IsRangeOf (ord₁ s) s.data) (hord₂ : ∀ s, AccReach s → IsRangeOf (ord₂ s) s.data)
+    (readErrors : Int) :
+    h₁ = refSamples cls key [data] ∧ h₂ = h₁ ∧ c₁ = refCounters cls [data] ∧ c₂ = c₁ ∧ s0.run h₁ = s0.run h₂ ∧
+    SameOutcome (reduceRun a maxKeylen s0 less h₁ ord₁ c₁ readErrors)
+      (reduceRun a maxKeylen s0 less h₂ ord₂ c₂ readErrors) := by
+  have e1 := terminal_fifo cls key cfg₁ hW₁ data h₁ t₁.terminal
+  have e2 := terminal_fifo cls key cfg₂ hW₂ data h₂ t₂.terminal
+  have k1 := terminalC_counters (by omega) t₁
+  have k2 := terminalC_counters (by omega) t₂
+  have eh : h₂ = h₁ := e2.trans e1.symm
+  have ec : c₂ = c₁ := k2.trans k1.symm
+  refine ⟨e1, eh, k1, ec, by rw [eh], ?_⟩
+  subst eh ec
+  apply reduceRun_sameOutcome a maxKeylen s0 less hlt h₂ h₂ _ ord₁ ord₂ hord₁ hord₂
+  cases hr : s0.run h₂ with
+  | error m => exact Or.inl ⟨m, m, rfl, rfl⟩
+  | ok s => exact Or.inr ⟨s, s, rfl, rfl, ObsEq.refl s, reach_run h0 h₂ hr, reach_run h0 h₂ hr⟩
+
+/-- Order-insensitive accumulators, ANY number of readers and workers, any number of files.  Hypothesis on the
+compiled accumulator expressions (`RowComm`): two consecutive samples of one group can be exchanged – the row
+ends up the same (or the same panic).  Then two terminal states of the whole program under any two tunings and
+schedules, both accepted, hold aggregators that answer every accessor alike (each group's row is the fold over
+the group's sub-multiset of samples: `accgroup_group_history` ∘ `pipeline_final`), and the complete result of
+`rare reduce` is the same. -/
+theorem reduce_commutative_schedule_independent (cls : Line → Cls) (key : Line → Bytes) (datas : List Bytes)
+    (cfg₁ cfg₂ : Config) (hW₁ : 1 ≤ cfg₁.W) (hW₂ : 1 ≤ cfg₂.W) (h₁ h₂ : List Bytes) (c₁ c₂ : Counters)
+    (t₁ : TerminalC cls key cfg₁ datas h₁ c₁) (t₂ : TerminalC cls key cfg₂ datas h₂ c₂)
+    (a : ReduceArgs) (maxKeylen : Nat) (s0 : AccGroup) (h0 : AccReach s0) (hempty : s0.data = [])
+    (hcomm : RowComm s0.specCols)
+    (s₁ s₂ : AccGroup) (r₁ : s0.run h₁ = .ok s₁) (r₂ : s0.run h₂ = .ok s₂)
+    (less : Bytes → Bytes → Bool) (hlt : C07.StrictTotal (reduceSorter a less))
+    (ord₁ ord₂ : AccGroup → List Bytes) (hord₁ : ∀ s, AccReach s → IsRangeOf (ord₁ s) s.data) (hord₂ : ∀ s, AccReach s → IsRangeOf (ord₂ s) s.data)
+    (readErrors : Int) :
+    h₁.Perm h₂ ∧ c₁ = refCounters cls datas ∧ c₂ = c₁ ∧
+    (∀ k, aget s₁.data k = aget s₂.data k) ∧ SameDefs s₁ s₂ ∧
+    SameOutcome (reduceRun a maxKeylen s0 less h₁ ord₁ c₁ readErrors)
+      (reduceRun a maxKeylen s0 less h₂ ord₂ c₂ readErrors) := by
+  have p1 := terminal_perm cls key cfg₁ hW₁ datas h₁ t₁.terminal
+  have p2 := terminal_perm cls key cfg₂ hW₂ datas h₂ t₂.terminal
+  have hp : h₁.Perm h₂ := p1.trans p2.symm
+  have k1 := terminalC_counters hW₁ t₁
+  have k2 := terminalC_counters hW₂ t₂
+  have ec : c₂ = c₁ := k2.trans k1.symm
+  have ho := run_perm_obsEq s0 s₁ s₂ h0 hempty hcomm hp r₁ r₂
+  refine ⟨hp, k1, ec, ho.2, ho.1, ?_⟩
+  subst ec
+  exact reduceRun_sameOutcome a maxKeylen s0 less hlt h₁ h₂
+    (Or.inr ⟨s₁, s₂, r₁, r₂, ho, reach_run h0 h₁ r₁, reach_run h0 h₂ r₂⟩) ord₁ ord₂ hord₁ hord₂ c₂ readErrors
+
+/-- The algebraic hypothesis for the accumulators people write.  A column that reads only its own accumulator
+`{.}` and the sampled element, cannot panic, and whose update right-commutes (`CommCol`) – in particular the stages
+the modelled builders return for `{sumi {.} {i}}`, `{maxi {.} {i}}`, `{mini {.} {i}}` and the counter `{sumi {.} n}` –
+gives `RowComm`, for any number of such columns. -/
+theorem reduce_commutative_accumulators :
+    (∀ cols : List SCol, (∀ c ∈ cols, CommCol c) → RowComm cols) ∧
+    (∀ name initial i, CommCol (AccDataDef.toSpec ⟨name, foldDotMatch Rare.Expr.Funcs.Arith.opSum i, initial⟩)) ∧
+    (∀ name initial i, CommCol (AccDataDef.toSpec ⟨name, foldDotMatch Rare.Expr.Funcs.Arith.opMax i, initial⟩)) ∧
+    (∀ name initial i, CommCol (AccDataDef.toSpec ⟨name, foldDotMatch Rare.Expr.Funcs.Arith.opMin i, initial⟩)) ∧
+    (∀ op name initial n, CommCol (AccDataDef.toSpec ⟨name, foldDotLit op n, initial⟩)) ∧
+    (∀ op i, Rare.Expr.Funcs.Arith.intHelper op [Comp.key dot, Comp.match_ i] = Rare.Expr.ok (foldDotMatch op i)) ∧
+    (∀ op lit n, atoi lit = some n →
+      Rare.Expr.Funcs.Arith.intHelper op [Comp.key dot, Stage.lit lit] = Rare.Expr.ok (foldDotLit op n)) :=
+  ⟨rowComm_of_commCols, fun n i k => commCol_foldDotMatch _ commOp_sum n i k,
+   fun n i k => commCol_foldDotMatch _ commOp_max n i k, fun n i k => commCol_foldDotMatch _ commOp_min n i k,
+   fun op n i k => commCol_foldDotLit op n i k, intHelper_dot_match, intHelper_dot_lit⟩
+
+/-- What the aggregator `reduceFunction` configures satisfies the hypotheses of the two theorems above, and the
+simple (no group, no `--table`) output cannot panic on it: every state sampled from it keeps the column names. -/
+theorem reduce_setup (compile : Bytes → Option Stage) (a : ReduceArgs) (s0 : AccGroup) (maxKeylen : Nat)
+    (h : reduceSetup compile a = .ok (s0, maxKeylen)) :
+    AccReach s0 ∧ s0.data = [] ∧
+    ∀ (hist : List Bytes) (s : AccGroup) (c : Counters), s0.run hist = .ok s → ∃ lines, reduceSimple s maxKeylen c = .ok lines := by
+  have inv := reduceSetup_inv compile a s0 maxKeylen h
+  refine ⟨inv.reach, inv.nodata, fun hist s c hr => ?_⟩
+  apply reduceSimple_ok
+  have sd := run_sameDefs inv.reach hist hr
+  intro n hn
+  apply inv.keylen
+  simpa [AccGroup.dataCols, sd.2.1] using hn
+
+/-- `reduce --csv`: the RFC 4180 reader of `Spec/C03` gives back, for every reachable aggregator with at least one
+column, the header and – per group, each exactly once, in `Groups(ByName)` order – the key parts padded to the
+number of group columns followed by the group's row, whatever bytes the values contain.  The key parts ARE the
+values of the group expressions iff no value contains NUL (`groupkey_parts`): a single empty value has the key ""
+without parts, and the padding supplies its empty cell.  (The reused row buffer leaks nothing: 6a022dd.) -/
+theorem reduce_csv_roundtrip (s : AccGroup) (hs : AccReach s) (hcols : 1 ≤ s.colCount)
+    (order gs : List Bytes) (hr : IsRangeOf order s.data) (hg : s.groupsWith bLt order = .ok gs) :
+    reduceCsv s order = .ok (writeCsv (writeAccumulatorRows s gs)) ∧
+    parseCsv (writeCsv (writeAccumulatorRows s gs)) =
+      (s.groupCols ++ s.dataCols) :: gs.map (fun g => padParts s.groupColCount (groupKeyParts g) ++ s.dataNoCopy g) ∧
+    gs.Perm order ∧
+    (∀ g ∈ gs, ∃ row, aget s.data g = some row ∧ s.dataNoCopy g = row ∧ s.dataOf g = row ∧ row.length = s.dataCols.length) ∧
+    (∀ vs : List Bytes, vs.length = s.groupColCount → (∀ v ∈ vs, (0 : UInt8) ∉ v) →
+      padParts s.groupColCount (groupKeyParts (nulJoin vs)) = vs) ∧
+    (∀ g, reduceTableRow s g = padParts s.groupColCount (groupKeyParts g) ++ s.dataOf g) := by
+  have hperm := (groupsWith_spec s bLt bLt_strictTotal order gs hg).1
+  have hsome : ∀ g ∈ gs, (aget s.data g).isSome = true := fun g hgm => (hr.2 g).mp (hperm.mem_iff.mp hgm)
+  have hdata : ∀ g ∈ gs, (s.dataNoCopy g).length = s.colDef.length :=
+    fun g hgm => dataNoCopy_length_of_reach s hs g (hsome g hgm)
+  have hrows := writeAccumulatorRows_eq s gs hdata
+  refine ⟨by simp [reduceCsv, hg, Except.map], ?_, hperm, ?_, ?_, reduceTableRow_eq s⟩
+  · rw [csv_roundtrip _ ?_, hrows]
+    · rfl
+    · rw [hrows]
+      intro r hrm
+      rcases List.mem_cons.mp hrm with rfl | hrm
+      · intro h0
+        have : (s.groupCols ++ s.dataCols).length = s.colCount := by
+          simp [AccGroup.groupCols, AccGroup.dataCols, AccGroup.colCount]
+        rw [h0] at this; simp at this; omega
+      · obtain ⟨g, hgm, rfl⟩ := List.mem_map.mp hrm
+        intro h0
+        have := csvCells_length s g (hdata g hgm)
+        rw [h0] at this; simp at this; omega
+  · intro g hgm
+    cases hrow : aget s.data g with
+    | none => have := hsome g hgm; rw [hrow] at this; cases this
+    | some row =>
+      have hl := (reach_accwf hs).rows g row hrow
+      refine ⟨row, rfl, by simp [AccGroup.dataNoCopy, hrow], dataOf_row s g row hrow hl, by simp [hl, AccGroup.dataCols]⟩
+  · intro vs hl hfree
+    rw [← hl]; exact padParts_nulJoin vs hfree
+
+/-- The guard `1 ≤ colCount` of `reduce_csv_roundtrip` is needed: `rare reduce` without `-g` and `-a` has no
+columns, writes records without fields (empty lines), and those read back as records with one empty field. -/
+theorem reduce_csv_roundtrip_guard_exact :
+    writeAccumulatorRows {} [[]] = [[], []] ∧ parseCsv (writeCsv (writeAccumulatorRows {} [[]])) = [[[]], [[]]] := by
+  decide
+
+/-! ### non-vacuity for `rare reduce` -/
+
+/-- `TerminalC` is inhabited for every corpus and every tuning with at least one reader slot and channel slot. -/
+theorem terminalC_inhabited (cls : Line → Cls) (key : Line → Bytes) (cfg : Config) (datas : List Bytes)
+    (hR : 1 ≤ cfg.R) (hB : 1 ≤ cfg.B) (hK : 1 ≤ cfg.K) : ∃ h c, TerminalC cls key cfg datas h c := by
+  obtain ⟨s, hr, hd⟩ := C01.pipeline_reaches_end cls hR hB hK _ (pipelineInit cfg datas) _ .refl (Nat.le_refl _)
+  obtain ⟨a, ha, hf, hs⟩ := aggloop_runs (s.consumed.map key)
+  exact ⟨a.sampled, _, s, [s.consumed.map key], a, hr, hd, by simp, ha, hf, rfl, rfl⟩
+
+/-- one reader, one worker, batch size 2 -/
+def exCfg1 : Config := ⟨1, 1, 1, 1, 2, fun _ n => n % 2 = 0⟩
+example : ∃ h c, TerminalC exCls (·.text) exCfg1 [[97, 10, 120, 10, 98, 10]] h c ∧ exCfg1.W = 1 := by
+  obtain ⟨h, c, t⟩ := terminalC_inhabited exCls (·.text) exCfg1 [[97, 10, 120, 10, 98, 10]] (by decide) (by decide) (by decide)
+  exact ⟨h, c, t, rfl⟩
+example : ∃ h c, TerminalC exCls (·.text) exCfg exData h c ∧ 1 ≤ exCfg.W := by
+  obtain ⟨h, c, t⟩ := terminalC_inhabited exCls (·.text) exCfg exData (by decide) (by decide) (by decide)
+  exact ⟨h, c, t, by decide⟩
+
+/-- `-g k={1} -a t={sumi {.} {2}} -a n={sumi {.} 1} -a m:-5={maxi {.} {2}}` as the builders compile it. -/
+def exReduce : AccGroup :=
+  let s1 := (({} : AccGroup).addGroupExpr [107] (some (Comp.match_ 1))).1
+  let s2 := (s1.addDataExpr [116] (some (foldDotMatch Rare.Expr.Funcs.Arith.opSum 2)) [48]).1
+  let s3 := (s2.addDataExpr [110] (some (foldDotLit Rare.Expr.Funcs.Arith.opSum 1)) [48]).1
+  (s3.addDataExpr [109] (some (foldDotMatch Rare.Expr.Funcs.Arith.opMax 2)) [45, 53]).1
+
+example : AccReach exReduce :=
+  AccReach.step _ _ (.addData [109] (some (foldDotMatch Rare.Expr.Funcs.Arith.opMax 2)) [45, 53]) none
+    (AccReach.step _ _ (.addData [110] (some (foldDotLit Rare.Expr.Funcs.Arith.opSum 1)) [48]) none
+      (AccReach.step _ _ (.addData [116] (some (foldDotMatch Rare.Expr.Funcs.Arith.opSum 2)) [48]) none
+        (AccReach.step _ _ (.addGroup [107] (some (Comp.match_ 1))) none AccReach.init rfl) rfl) rfl) rfl
+example : exReduce.data = [] := rfl
+example : RowComm exReduce.specCols := by
+  apply reduce_commutative_accumulators.1
+  intro c hc
+  have : c = AccDataDef.toSpec ⟨[116], foldDotMatch Rare.Expr.Funcs.Arith.opSum 2, [48]⟩ ∨
+      c = AccDataDef.toSpec ⟨[110], foldDotLit Rare.Expr.Funcs.Arith.opSum 1, [48]⟩ ∨
+      c = AccDataDef.toSpec ⟨[109], foldDotMatch Rare.Expr.Funcs.Arith.opMax 2, [45, 53]⟩ := by
+    simpa [exReduce, AccGroup.specCols, AccGroup.addDataExpr, AccGroup.addGroupExpr, aget, aset] using hc
+  rcases this with rfl | rfl | rfl
+  · exact reduce_commutative_accumulators.2.1 _ _ _
+  · exact reduce_commutative_accumulators.2.2.2.2.1 _ _ _ _
+  · exact reduce_commutative_accumulators.2.2.1 _ _ _
+/-- samples `b NUL 7`, `a NUL -2`, `b NUL 5` and a permutation of them: the same rows, and (groups in `ByName`
+order) the CSV `k,t,n,m⏎a,-2,1,-2⏎b,12,2,7⏎` (group `a`: the maximum of the initial -5 and -2). -/
+example : (match exReduce.run [[98, 0, 55], [97, 0, 45, 50], [98, 0, 53]] with
+      | .ok s => some (writeCsv (writeAccumulatorRows s [[97], [98]])) | .error _ => none) =
+    some [107, 44, 116, 44, 110, 44, 109, 10, 97, 44, 45, 50, 44, 49, 44, 45, 50, 10, 98, 44, 49, 50, 44, 50, 44, 55, 10] ∧
+    (match exReduce.run [[98, 0, 53], [98, 0, 55], [97, 0, 45, 50]] with
+      | .ok s => some (writeCsv (writeAccumulatorRows s [[97], [98]])) | .error _ => none) =
+    some [107, 44, 116, 44, 110, 44, 109, 10, 97, 44, 45, 50, 44, 49, 44, 45, 50, 10, 98, 44, 49, 50, 44, 50, 44, 55, 10] := by
+  decide +kernel
+example : ∃ gs, exReduce.groupsWith bLt [[98], [97]] = .ok gs := ⟨_, rfl⟩
+example : C07.StrictTotal (reduceSorter {} bLt) := bLt_strictTotal
+example : ∀ s, AccReach s → IsRangeOf (akeys s.data) s.data :=
+  fun _ h => ⟨reach_keys_nodup h, fun _ => mem_akeys_iff _ _⟩
+/-- the set-up of `reduce -g k={1} -a n:7={1}` with a compiler that knows the template `{1}` only -/
+example : ∃ s0 mk, reduceSetup (fun t => if t = [123, 49, 125] then some (Comp.match_ 1) else none)
+    { group := [[107, 61, 123, 49, 125]], accum := [[110, 58, 55, 61, 123, 49, 125]] } = .ok (s0, mk) ∧ mk = 1 ∧
+    s0.groupCols = [[107]] ∧ s0.dataCols = [[110]] ∧ s0.colDef.map (·.initial) = [[55]] := ⟨_, _, rfl, rfl, rfl, rfl, rfl⟩
+example : parseKeyValInitial [97, 58, 49, 61, 120, 61] [48] = ([97], [49], [120, 61]) ∧ parseKeyValue [120] = ([120], [120]) := by decide
 
 end Rare.C03
